@@ -228,11 +228,13 @@ fn part(tier: Tier) -> Part {
 }
 
 pub fn run(tier: Tier, part_only: bool) -> i32 {
+    let t0 = std::time::Instant::now();
     let own = part(tier);
     if part_only {
         return emit_part(&own);
     }
     let mut rep = Report::new("C18", tier, "exploration");
+    rep.t0 = t0;
     own.merge_into(&mut rep);
     match run_variant_part("asan", "C18", tier) {
         Ok(p) => p.merge_into(&mut rep),
